@@ -69,6 +69,10 @@ type descriptor struct {
 	// tasks that read what it stored sit outside; 3 = the activity sits at
 	// process level, the gateway and the downstream tasks inside a sub-process
 	Place int `json:"place,omitempty"`
+	// Direct: no gateway - the three conditional flows (sel == 1, sel == 2,
+	// neither) leave the activity itself: their conditions read what the
+	// activity's own answer has just stored
+	Direct bool `json:"direct,omitempty"`
 }
 
 type built struct {
@@ -134,7 +138,13 @@ func build(d descriptor) *built {
 		after = b.Add(gen.KStart)
 	}
 	x := b.Add(gen.KXor)
-	b.Connect(after, x)
+	if d.Direct && d.Place == 0 && !d.LoopBack {
+		// (the gateway node is dropped again: the flows start at the activity)
+		b.G.Nodes = b.G.Nodes[:len(b.G.Nodes)-1]
+		x = after
+	} else {
+		b.Connect(after, x)
+	}
 	for i := 0; i < 3; i++ {
 		if d.LoopBack && i == 2 {
 			f := b.Connect(x, a)
@@ -149,8 +159,11 @@ func build(d descriptor) *built {
 		f := b.Connect(x, t)
 		b.Connect(t, en)
 		bt.B[i] = t.ID
-		if i == 0 {
+		if i == 0 && x != after {
 			x.Default = f.ID
+		} else if i == 0 {
+			f.Cond = &gen.Cond{Op: "and", L: &gen.Cond{Op: "ne", Var: "sel", K: 1}, R: &gen.Cond{Op: "ne", Var: "sel", K: 2}}
+			f.Formal = true
 		} else {
 			f.Cond = &gen.Cond{Op: "eq", Var: "sel", K: int64(i)}
 			f.Formal = true
@@ -664,9 +677,13 @@ func drawDescriptor(rt *rapid.T) descriptor {
 		}
 	}
 	if !d.DeadEnd && !d.LoopBack {
+		d.Direct = rapid.IntRange(0, 3).Draw(rt, "direct") == 0
 		// a third of the plain shapes put a sub-process boundary between the
 		// activity that stores the results and the condition / tasks reading them
 		d.Place = rapid.SampledFrom([]int{0, 0, 0, 0, 1, 2, 3, 3}).Draw(rt, "place")
+		if d.Direct {
+			d.Place = 0
+		}
 		if d.Place == 1 || d.Place == 2 {
 			// inside a sub-process a token that stops (exit, exhausted retries)
 			// completes the sub-process and the outer token continues: another
